@@ -94,7 +94,7 @@ def gen(ctx):
         a = rs(r.randrange(0, 7)); b = variant(a); c = variant(b)
         loc = r.choice(["-", "-", "en", "tr", "az"])
         fl = r.choice(flagsets)
-        if "c" in fl: loc = "-"                   # collation only in the C.UTF-8 default locale
+        if "c" in fl: loc = r.choice(["-", "-", "tr", "xx_XX"])     # no such locale is installed: collation falls back to the global C.UTF-8
         if "c" not in fl:
             a = with_nul(a); b = with_nul(b) if r.random() < 0.5 else (a[:a.index(0) + 1] + b if 0 in a else b)
         strs = [hx(CR.enc(x)) for x in (a, b, c)]
@@ -104,7 +104,7 @@ def gen(ctx):
         n = r.choice([0, 1, 2, 3, 5, 8, 20, 60])
         loc = r.choice(["-", "-", "tr"])
         fl = r.choice(flagsets)
-        if "c" in fl: loc = "-"
+        if "c" in fl: loc = r.choice(["-", "-", "tr", "xx_XX"])
         base = [rs(r.randrange(0, 5)) for _ in range(max(1, n // 2))]
         if "c" not in fl:
             # strings that agree up to an embedded U+0000 and differ behind it
